@@ -5,7 +5,7 @@
   (F5: the decoder keeps properties with a repeated name; F6: a strict array marshals the number of
   its elements as count).
 -/
-import Oryx.Proofs.Amf0RoundTrip
+import Oryx.Proofs.Amf0Extra
 namespace Oryx.Props.C05
 open Oryx Oryx.Res Oryx.Amf0
 
@@ -48,6 +48,34 @@ theorem fuel_never_exhausted (fuel : Nat) (bs : Bytes) (h : bs.length < fuel) :
     decodeVal fuel bs ≠ .panic ∧ decodeProps fuel bs ≠ .panic ∧ ∀ n, decodeElems fuel n bs ≠ .panic :=
   ⟨(decode_np fuel).1 bs h, (decode_np fuel).2.1 bs h, fun n => (decode_np fuel).2.2 n bs h⟩
 
+/-- Every byte string that decodes yields a well-formed tree; hence it re-marshals to exactly the
+consumed bytes' length, and unmarshalling the re-marshalled bytes gives the same tree again. -/
+theorem decoded_is_stable (bs : Bytes) (v : Val) (rest : Bytes) (h : decode bs = ok (v, rest)) :
+    v.WF ∧ (encode v).length = bs.length - rest.length ∧
+    ∀ tail, decode (encode v ++ tail) = ok (v, tail) :=
+  ⟨decode_wf h, by rw [encode_len]; exact (size_consumed bs v rest h).1,
+   fun tail => decode_encode v (decode_wf h) tail⟩
+
+/-! ### the property bag (`objectBase.Get` / `Set`) -/
+
+/-- `Set` then `Get` of the same key returns the value set (an existing key is replaced in place,
+a new one appended at the end); other keys are undisturbed. -/
+theorem get_set (ps : Props) (k k' : Bytes) (v : Val) :
+    (ps.set k v).get k = some v ∧ (k' ≠ k → (ps.set k v).get k' = ps.get k') :=
+  ⟨Props.get_set_same k v ps, fun h => Props.get_set_other k v h ps⟩
+
+/-- A container filled through `Set` alone has no repeated key (repeats arise only from decoding). -/
+theorem set_keeps_keys_distinct (ps : Props) (k : Bytes) (v : Val) (h : ps.keys.Nodup) :
+    (ps.set k v).keys.Nodup := Props.keys_nodup_set k v ps h
+
+/-! ### instrumented cost (finding K3, reported under C07) -/
+
+/-- `d` objects nested in each other: the encoding is `(6+|k|)·d + 1` bytes long but decoding costs
+`(d+1)²` steps when the `a.Size()` re-walk of every child is charged — quadratic in the input length. -/
+theorem nested_cost_quadratic (k : Bytes) (d : Nat) :
+    size (nest k d .null) = (6 + k.length) * d + 1 ∧ costV (nest k d .null) = d * d + 2 * d + 1 :=
+  ⟨size_nest k d, cost_nest k d⟩
+
 /-! ### regression witnesses of the repaired defects -/
 
 /-- F5: `03 0001'a' 05 0001'a' 05 000009` — both properties are kept, 12 bytes consumed, Size() = 12
@@ -83,5 +111,7 @@ example : decode (encode exTree ++ [0, 0, 9]) = ok (exTree, [0, 0, 9]) := decode
 example : (encode exTree).length = 66 := by rw [encode_len]; rfl
 example : ∃ v rest, decode [0, 0x7f, 0xf8, 0, 0, 0, 0, 0, 1, 0xaa] = ok (v, rest) := ⟨_, _, rfl⟩
 example : ([3, 0, 0, 9] : Bytes).length < 5 := by decide
+example : (Props.nil.set [97] .null).keys.Nodup := by decide
+example : ([98] : Bytes) ≠ [97] := by decide
 
 end Oryx.Props.C05
